@@ -214,6 +214,10 @@ def _apply(call, arrs):
         return x.nonzero()
     if op == "sort":
         return sparse.sort(x, axis=call[1])
+    if op == "concat_blocks":          # concatenate of concatenates: blocks of `k` operands along ax_in, then along ax_out
+        ax_in, ax_out, k = call[1], call[2], call[3]
+        blocks = [sparse.concatenate(list(arrs[i:i + k]), axis=ax_in) for i in range(0, len(arrs), k)]
+        return sparse.concatenate(blocks, axis=ax_out)
     if op == "pad":
         ax, lo, hi = call[1], call[2], call[3]
         return sparse.pad(x, tuple((lo, hi) if i == ax else (0, 0) for i in range(x.ndim)))
@@ -901,6 +905,45 @@ def gen_cases(tier, rng, sc=None):
             cases.append(mk_case(f"gcxs3:concatenate(axis={ax})", "join", [g3, h3], ["concatenate", ax], ("concat", ax, IN0, IN1)))
         for ax in range(2):
             cases.append(mk_case(f"gcxs3:stack(axis={ax})", "join", [g3, h3], ["stack", ax], ("stack", ax, IN0, IN1)))
+
+    # ---------------------------------------------------------------- joining with all-zero operands (nnz == 0): the typical block at scale
+    def empty_like(x):
+        return dict(x, coords=[], data=[])
+
+    for _ in range(n_rep):
+        for shape, fmt, cax in [(S3, "coo", None), (P3, "coo", None), (B2, "coo", None), (sc.G3, "gcxs", [0])]:
+            nd = len(shape)
+            x = rand_spec(rng, shape, pick_nnz(rng, tier, big_ok=False), fmt, cax)
+            y = related_spec(rng, x, pick_nnz(rng, tier, big_ok=False))
+            z = related_spec(rng, x, pick_nnz(rng, tier, big_ok=False))
+            e = empty_like(x)
+            tag = "coo" if fmt == "coo" else "gcxs3"
+            patterns = [[e, x, y], [x, e, y], [x, y, e], [x, e, e, y], [e, e, x], [e, x, e, y, e], [e, e]]
+            for ax in range(nd):
+                for ops in (patterns if tiny or not few else rng.sample(patterns[:6], 3) + [patterns[6]]):
+                    if fmt == "gcxs" and ax != 0 and few and not tiny and len(ops) > 3:
+                        continue
+                    names = "".join("E" if not o["coords"] else "X" for o in ops)
+                    cases.append(mk_case(f"{tag}:concatenate[{names}](axis={ax})", "join-empty", list(ops), ["concatenate", ax],
+                                         e_chain_concat(ax, [("in", i) for i in range(len(ops))])))
+            for ax in (range(nd + 1) if fmt == "coo" else range(2)):
+                ops = rng.choice([[e, x], [x, e], [e, x, y], [x, e, y]])
+                names = "".join("E" if not o["coords"] else "X" for o in ops)
+                expr = ("stack", ax, IN0, IN1)
+                if len(ops) == 3:
+                    sh1 = list(shape[:ax]) + [1] + list(shape[ax:])
+                    expr = e_chain_concat(ax, [("reshape", sh1, ("in", i)) for i in range(3)])
+                cases.append(mk_case(f"{tag}:stack[{names}](axis={ax})", "join-empty", list(ops), ["stack", ax], expr))
+            # block-wise builds: concatenate of concatenates, along the same axis and along two different axes
+            for ops in ([[x, e, e, y], [e, x, y, e], [e, e, z, x]] if not few or tiny else [[x, e, e, y], [e, x, y, e]]):
+                names = "".join("E" if not o["coords"] else "X" for o in ops)
+                for ax_in, ax_out in [(0, 0), (nd - 1, nd - 1), (0, nd - 1), (nd - 1, 0)]:
+                    if ax_in == ax_out:
+                        expr = e_chain_concat(ax_in, [("in", i) for i in range(4)])
+                    else:
+                        expr = ("concat", ax_out, ("concat", ax_in, ("in", 0), ("in", 1)), ("concat", ax_in, ("in", 2), ("in", 3)))
+                    cases.append(mk_case(f"{tag}:blocks[{names}](in={ax_in},out={ax_out})", "join-empty", list(ops),
+                                         ["concat_blocks", ax_in, ax_out, 2], expr))
 
     # ---------------------------------------------------------------- conversion between sparse formats
     for _ in range(n_rep):
